@@ -36,27 +36,28 @@ def run_demo(sdir, tree):
         rc, out = sh(f"sh {scripts[0]} {tree}", cwd=tree)
         return ("pass" if rc == 0 else "fail"), f"sh demo/{os.path.basename(scripts[0])} <tree>"
     pkgs = set()
-    for root, _, files in os.walk(demo):
-        for f in files:
-            if f.endswith(".go"):
-                rel = os.path.relpath(root, demo)
-                os.makedirs(os.path.join(tree, rel), exist_ok=True)
-                shutil.copy(os.path.join(root, f), os.path.join(tree, rel, f))
-                pkgs.add("./" + rel)
+    copied = []
     names = set()
     for root, _, files in os.walk(demo):
         for f in files:
+            rel = os.path.relpath(root, demo)
+            os.makedirs(os.path.join(tree, rel), exist_ok=True)
+            dst = os.path.join(tree, rel, f)
+            if not os.path.exists(dst):
+                shutil.copy(os.path.join(root, f), dst)
+                copied.append(dst)
             if f.endswith("_test.go"):
-                names.update(re.findall(r"^func (Test\w+)\(", open(os.path.join(root, f)).read(), re.M))
+                src = open(os.path.join(root, f)).read()
+                if re.search(r"^//go:build", src, re.M):
+                    continue  # helper package of a nested demo, built by the outer test with its own tag
+                pkgs.add("./" + rel)
+                names.update(re.findall(r"^func (Test\w+)\(", src, re.M))
     pat = "^(" + "|".join(sorted(names)) + ")$"
     cmd = f"go test -vet=off -count=1 -run '{pat}' {' '.join(sorted(pkgs))}"
-    rc, out = sh(cmd, cwd=tree)
-    # remove the demo files again
-    for root, _, files in os.walk(demo):
-        for f in files:
-            rel = os.path.relpath(root, demo)
-            try: os.remove(os.path.join(tree, rel, f))
-            except OSError: pass
+    rc, out = sh(cmd, cwd=tree, timeout=1800)
+    for dst in copied:
+        try: os.remove(dst)
+        except OSError: pass
     return ("pass" if rc == 0 else "fail"), cmd
 
 def main():
